@@ -48,7 +48,7 @@ def case_strategy(draw, tier):
         'join_low_latency': draw(st.sampled_from([None, None, True])),
         'watch': sorted(draw(st.sets(st.integers(0, nb - 1), max_size=2))),
         'required': draw(st.booleans()),
-        'net': draw(scen.net_strategy(max_drops=0)),
+        'net': draw(scen.net_strategy(max_drops=draw(st.sampled_from([0, 0, 5])))),      # some publishes (single topic messages of a frame) may be lost on the way
         'starts': draw(st.lists(st.sampled_from([0, 0, 0, 40, 250, 800]), min_size=8, max_size=8)),
         'ipc': draw(st.booleans()),
     }
